@@ -284,15 +284,17 @@ pub fn catch<T>(f: impl FnOnce() -> T) -> Result<T, String> {
 /// Reduce a panic message to a stable signature (location without line noise is kept: file:line).
 pub fn panic_signature(msg: &str) -> String {
     // "attempt to add with overflow @ /repo/src/engine/search/aspiration.rs:33"
-    let m = msg.replace("/repo/src/", "");
-    // drop scratch-copy prefixes used in sensitivity runs
-    match m.find("/src/") {
-        Some(i) if m[..i].contains("/tmp/") => {
-            let at = m.find(" @ ").map(|a| a + 3).unwrap_or(0);
-            format!("{}{}", &m[..at], &m[i + 5..])
-        }
-        _ => m,
-    }
+    // -> first line of the message + file:line relative to the source root
+    let (text, loc) = match msg.rfind(" @ ") {
+        Some(i) => (&msg[..i], &msg[i + 3..]),
+        None => (msg, ""),
+    };
+    let first = text.lines().next().unwrap_or("");
+    let loc = match loc.rfind("/src/") {
+        Some(i) => &loc[i + 5..],
+        None => loc,
+    };
+    format!("{first} @ {loc}")
 }
 
 pub fn infra(msg: &str) -> ! {
